@@ -148,7 +148,10 @@ class isoparser(object):
 
         if len(components) > 3 and components[3] == 24:
             components[3] = 0
-            return datetime(*components) + timedelta(days=1)
+            try:
+                return datetime(*components) + timedelta(days=1)
+            except OverflowError:
+                raise ValueError('Date out of range')
 
         return datetime(*components)
 
@@ -332,7 +335,11 @@ class isoparser(object):
 
         # Now add the specific number of weeks and days to get what we want
         week_offset = (week - 1) * 7 + (day - 1)
-        return week_1 + timedelta(days=week_offset)
+        try:
+            result = week_1 + timedelta(days=week_offset)
+        except OverflowError:
+            raise ValueError('Week date out of range')
+        return result
 
     def _parse_isotime(self, timestr):
         len_str = len(timestr)
